@@ -390,7 +390,7 @@ def run(ctx, rec):
         if l.endswith("-pref") and l.startswith("bundle-") and (("B1" in l or "B3" in l or "B5" in l) or not ctx.quick):
             designs.append((l, d))
     n_fixed = len(designs)
-    n_rand = 4 if ctx.quick else 36
+    n_rand = 4 if ctx.quick else 60
     tries = 0
     while len(designs) < n_fixed + n_rand and tries < 2000:
         tries += 1
@@ -401,11 +401,11 @@ def run(ctx, rec):
         designs = designs[ctx.shard:: ctx.nshards]
     for di, (label, d) in enumerate(designs):
         uid = f"_c07s{ctx.shard}d{di}"
-        hs = histories_for(d, rng, exhaustive=True, n_sampled=70 if ctx.quick else 400)
+        hs = histories_for(d, rng, exhaustive=True, n_sampled=70 if ctx.quick else 700)
         for hi, h_ in enumerate(hs):
             replay_history(rec, label, d, uid, [(k, n) for k, n in h_], late=False, sample=(hi % 900 == 5), additions=(hi % 10 == 0))
         # late parents: the same kinds of histories, but every module is only constructed when first needed
-        for hi, h_ in enumerate(histories_for(d, rng, exhaustive=False, n_sampled=90 if ctx.quick else 500)):
+        for hi, h_ in enumerate(histories_for(d, rng, exhaustive=False, n_sampled=90 if ctx.quick else 800)):
             replay_history(rec, label, d, uid, [(k, n) for k, n in h_], late=True, sample=(hi % 400 == 7), additions=(hi % 10 == 0))
         if di < (2 if ctx.quick else 6):
             fresh_process_crosscheck(rec, d, uid)
